@@ -188,8 +188,8 @@ theorem eval_mulCore {ρ : String → K} {l r : Exp (Ext K)} {a b : K}
   · rw [eval_num_iff] at hl hr; subst hl hr; simp [eval]
   · split
     · rename_i h
-      simp only [Bool.or_eq_true, isNumEq_zero_iff] at h
-      rcases h with h | h <;> subst h
+      simp only [Bool.or_eq_true, Bool.and_eq_true, isNumEq_zero_iff] at h
+      rcases h with ⟨h, _⟩ | ⟨h, _⟩ <;> subst h
       · simp [eval] at hl; subst hl; simp [eval]
       · simp [eval] at hr; subst hr; simp [eval]
     · split
@@ -358,18 +358,18 @@ theorem agg_flatten {ρ : String → K} (isAnd : Bool) {cs : List (Exp (Ext K))}
     · rw [naryFlatten_cons_other _ _ _ h, agg_cons, agg_cons, ih]
     · rw [naryFlatten_cons_same, agg_append, agg_cons, ih, tv_mkNary (hdef _ (by simp))]
 
-theorem agg_filter {ρ : String → K} (isAnd : Bool) {F : List (Exp (Ext K))}
-    (h : ∀ x ∈ F, isNum x = true → tv ρ x = isAnd) :
-    agg ρ isAnd (F.filter (fun x => !isNum x)) = agg ρ isAnd F := by
+theorem agg_filter {ρ : String → K} (isAnd : Bool) {F : List (Exp (Ext K))} {q : Exp (Ext K) → Bool}
+    (h : ∀ x ∈ F, q x = false → tv ρ x = isAnd) :
+    agg ρ isAnd (F.filter q) = agg ρ isAnd F := by
   induction F with
   | nil => rfl
   | cons x xs ih =>
     have ih := ih (fun y hy => h y (by simp [hy]))
-    by_cases hx : isNum x = true
-    · have := h x (by simp) hx
-      rw [List.filter_cons_of_neg (by simp [hx]), agg_cons, ih, this]
+    by_cases hx : q x = true
+    · rw [List.filter_cons_of_pos hx, agg_cons, agg_cons, ih]
+    · have := h x (by simp) (by simpa using hx)
+      rw [List.filter_cons_of_neg hx, agg_cons, ih, this]
       cases isAnd <;> simp
-    · rw [List.filter_cons_of_pos (by simp [hx]), agg_cons, agg_cons, ih]
 
 theorem agg_absorbing {ρ : String → K} (isAnd : Bool) {F : List (Exp (Ext K))} {x : Exp (Ext K)}
     (hx : x ∈ F) (ht : tv ρ x = !isAnd) : agg ρ isAnd F = !isAnd := by
@@ -381,6 +381,29 @@ theorem agg_absorbing {ρ : String → K} (isAnd : Bool) {F : List (Exp (Ext K))
 
 theorem ofBool_truthy_of01 {w : K} (h : w = 0 ∨ w = 1) : ofBool (truthy w) = w := by
   rcases h with rfl | rfl <;> simp [truthy_eq]
+
+/-- a successful second loop (rooc 9f62afd: scan or keep) leaves the truth value unchanged and
+only drops elements. -/
+theorem naryStep_agg {ρ : String → K} {isAnd : Bool} {F res : List (Exp (Ext K))}
+    (hdef : ∀ x ∈ F, Def ρ x) (hs : naryStep isAnd F = some res) :
+    agg ρ isAnd res = agg ρ isAnd F ∧ ∀ x ∈ res, x ∈ F := by
+  obtain ⟨q, hq, hdrop, _⟩ := naryStep_some hs
+  constructor
+  · rw [hq, agg_filter]
+    intro x hx hqx
+    obtain ⟨v, rfl, ha⟩ := hdrop x hx hqx
+    rw [tv_num (hdef _ hx)]
+    have : ¬ absorbing isAnd v = true := by simp [ha]
+    rw [absorbing_iff] at this
+    cases isAnd <;> cases h : numTruthy v <;> simp_all
+  · intro x hx; rw [hq, List.mem_filter] at hx; exact hx.1
+
+/-- a short-circuit happens only on an absorbing constant. -/
+theorem naryStep_none_agg {ρ : String → K} {isAnd : Bool} {F : List (Exp (Ext K))}
+    (hdef : ∀ x ∈ F, Def ρ x) (hs : naryStep isAnd F = none) : agg ρ isAnd F = !isAnd := by
+  obtain ⟨_, v, hv, ha⟩ := naryStep_none hs
+  rw [absorbing_iff] at ha
+  exact agg_absorbing isAnd hv (by rw [tv_num (hdef _ hv), ha])
 
 /-- the n-ary step, parametric in the invariant `G` carried through the induction
 (`LogicOperands01 ρ`, or the finer `ExactOK ρ` of `ExpLemmasTruth`). -/
@@ -401,31 +424,15 @@ theorem naryCore_sound_gen {ρ : String → K} (G : Exp (Ext K) → Prop)
       have hl := (G_mk isAnd inner).1 (hLO _ h1)
       exact ⟨hd x h2, hl.2 x h2, hl.1 x h2⟩
   have hagg := agg_flatten isAnd hdef
-  -- successful scan: same truth value, elements keep their properties
-  have hres : ∀ res, naryScan isAnd (naryFlatten isAnd cs) = some res →
+  -- successful second loop: same truth value, elements keep their properties
+  have hres : ∀ res, naryStep isAnd (naryFlatten isAnd cs) = some res →
       agg ρ isAnd res = agg ρ isAnd cs ∧
       ∀ x ∈ res, Def ρ x ∧ Is01 (eval ρ x) ∧ G x := by
     intro res hs
-    have hfil := naryScan_some hs
-    constructor
-    · rw [hfil, agg_filter, hagg]
-      intro x hx hn
-      rcases isNum_cases x with h | ⟨v, rfl⟩
-      · rw [h] at hn; cases hn
-      · rw [tv_num (hF _ hx).1]
-        have hnone : ¬ naryScan isAnd (naryFlatten isAnd cs) = none := by rw [hs]; simp
-        rw [naryScan_none] at hnone
-        have : ¬ absorbing isAnd v = true := fun ha => hnone ⟨v, hx, ha⟩
-        rw [absorbing_iff] at this
-        cases isAnd <;> cases h : numTruthy v <;> simp_all
-    · intro x hx
-      rw [hfil, List.mem_filter] at hx
-      exact hF x hx.1
+    obtain ⟨h1, h2⟩ := naryStep_agg (fun x hx => (hF x hx).1) hs
+    exact ⟨by rw [h1, hagg], fun x hx => hF x (h2 x hx)⟩
   rcases naryCore_cases isAnd cs with ⟨h1, h2⟩ | ⟨h1, h2⟩ | ⟨e, h1, h2⟩ | ⟨res, h1, hl, h2⟩
-  · obtain ⟨v, hv, ha⟩ := naryScan_none.1 h1
-    rw [absorbing_iff] at ha
-    have ht : tv ρ (.num v) = !isAnd := by rw [tv_num (hF _ hv).1, ha]
-    rw [h2, ← hagg, agg_absorbing isAnd hv ht]
+  · rw [h2, ← hagg, naryStep_none_agg (fun x hx => (hF x hx).1) h1]
     refine ⟨?_, G_num _⟩
     cases isAnd <;> simp [eval]
   · rw [h2, ← (hres _ h1).1, agg_nil]
